@@ -141,3 +141,183 @@ Theorem C02_example :
          (3%positive, mkNode 0 [E (RN 1); E (RN 2)] 0 1)], RN 4).
 Proof. exact (conj ex_snap_bdd_ok (conj ex_cache_ok (conj ac_lossy ex_apply_and))). Qed.
 Print Assumptions C02_example.
+
+(** * The complement-edge kind (BCDD)
+
+    Model: DD/ApplyBcdd.v (mirrors complement_edge/mod.rs and
+    complement_edge/apply_rec.rs); proofs: DD/ApplyBcddProofs.v,
+    DD/ApplyBcddIte.v, DD/ApplyBcddEval.v.  An edge is a reference plus a
+    complement tag, its meaning is [semc] (DD/Table.v); [DenC s e phi]: edge
+    [e] of table [s] denotes [phi]; [BcOK]: well-formed BCDD table with its
+    single terminal. *)
+From OxiVerif Require Import DD.ApplyBcdd DD.ApplyBcddProofs DD.ApplyBcddIte DD.ApplyBcddEval
+  DD.ApplyBcddExamples.
+
+(** the executable checker decides the invariant assumed below *)
+Theorem C02_bcdd_ok_b_spec : forall s, bcok_b s = true <-> BcOK s.
+Proof. exact bcok_b_spec. Qed.
+Print Assumptions C02_bcdd_ok_b_spec.
+
+(** [reduce]: equal children are merged, the then-edge is stored untagged and
+    its complement moved to the else-edge and the returned edge; the result
+    denotes the Shannon combination of the two children *)
+Theorem C02_bcdd_reduce : forall s lvl t e P0 P1 s' h, BcOK s -> lvl < nlevels s ->
+  DenC s t P0 -> DenC s e P1 -> indep P0 (S lvl) -> indep P1 (S lvl) ->
+  cmk_node s lvl t e = (s', h) ->
+  BcOK s' /\ extends s s' /\
+  DenC s' h (fun c => if Nat.eqb (c lvl) 0 then P0 c else P1 c).
+Proof. exact cnode_step. Qed.
+Print Assumptions C02_bcdd_reduce.
+
+(** every case of [terminal_and] / [terminal_xor] ([f == g], [f == not g],
+    terminal operands) agrees with the connective *)
+Theorem C02_bcdd_terminal_sound : forall s op f g phi psi, BcOK s -> DenC s f phi -> DenC s g psi ->
+  match cterminal s op f g with
+  | KDone r => DenC s r (fun c => ceval op (phi c) (psi c))
+  | KNodes fn gn => exists idf idg, eref f = RN idf /\ find_node s idf = Some fn /\
+                                    eref g = RN idg /\ find_node s idg = Some gn
+  | KFail => False
+  end.
+Proof. exact cterminal_sound. Qed.
+Print Assumptions C02_bcdd_terminal_sound.
+
+(** not: the tag flip *)
+Theorem C02_bcdd_not_sound : forall C s (c : C) f, BcOK s -> ref_ok s (eref f) ->
+  exists r, capply_not C s c f = Some (s, c, r) /\ ref_ok s (eref r) /\
+    forall c0, bchoice c0 -> exists x,
+      semc s (S (nlevels s)) f c0 = Some x /\ semc s (S (nlevels s)) r c0 = Some (negb x).
+Proof. exact capply_not_sound. Qed.
+Print Assumptions C02_bcdd_not_sound.
+
+(** and, or, nand, nor, xor, equiv, imp, imp_strict: derived from [apply_bin]
+    for And/Xor by tag flips as in the code; for every operand order [lt] and
+    every cache that only serves what was added *)
+Theorem C02_bcdd_apply_op_sound : forall lt C cget cadd, lossyC cget cadd ->
+  forall o fuel s (c : C) f g,
+  BcOK s -> CacheOKC cget s c -> ref_ok s (eref f) -> ref_ok s (eref g) -> S (nlevels s) <= fuel ->
+  exists s' c' r, capply_op lt C cget cadd fuel s c o f g = Some (s', c', r) /\
+    BcOK s' /\ extends s s' /\ CacheOKC cget s' c' /\ ref_ok s' (eref r) /\
+    forall c0, bchoice c0 -> exists x y,
+      semc s (S (nlevels s)) f c0 = Some x /\
+      semc s (S (nlevels s)) g c0 = Some y /\
+      semc s' (S (nlevels s')) r c0 = Some (eval_bop o x y).
+Proof. exact capply_op_sound. Qed.
+Print Assumptions C02_bcdd_apply_op_sound.
+
+(** ite with its terminal short-cuts *)
+Theorem C02_bcdd_apply_ite_sound : forall lt C cget cadd, lossyC cget cadd ->
+  forall fuel s (c : C) f g h,
+  BcOK s -> CacheOKC cget s c -> ref_ok s (eref f) -> ref_ok s (eref g) -> ref_ok s (eref h) ->
+  S (nlevels s) <= fuel ->
+  exists s' c' r, capply_ite lt C cget cadd fuel s c f g h = Some (s', c', r) /\
+    BcOK s' /\ extends s s' /\ CacheOKC cget s' c' /\ ref_ok s' (eref r) /\
+    forall c0, bchoice c0 -> exists x y z,
+      semc s (S (nlevels s)) f c0 = Some x /\
+      semc s (S (nlevels s)) g c0 = Some y /\
+      semc s (S (nlevels s)) h c0 = Some z /\
+      semc s' (S (nlevels s')) r c0 = Some (if x then y else z).
+Proof. exact capply_ite_sound. Qed.
+Print Assumptions C02_bcdd_apply_ite_sound.
+
+(** constants *)
+Theorem C02_bcdd_mk_const_sem : forall s b, BcOK s ->
+  exists r, cmk_const s b = Some r /\ DenC s r (fun _ => b).
+Proof. exact cmk_const_sem. Qed.
+Print Assumptions C02_bcdd_mk_const_sem.
+
+(** the variable constructors ([neg = true]: the negated variable) *)
+Theorem C02_bcdd_mk_var_bfun : forall s v neg, BcOK s -> v < nlevels s ->
+  exists s' r, cmk_var s v neg = Some (s', r) /\ BcOK s' /\ extends s s' /\ ref_ok s' (eref r) /\
+    forall a, cbfun_of s' r a = xorb neg (var_s v a).
+Proof. exact cmk_var_bfun. Qed.
+Print Assumptions C02_bcdd_mk_var_bfun.
+
+(** eval: the walk of [eval_edge] with its complement parity is the
+    node-by-node interpretation *)
+Theorem C02_bcdd_eval_walk_sem : forall s, WF s -> forall fuel e b ch,
+  ceval_walk fuel s e b ch =
+  option_map (xorb b) (semc s fuel e (fun l => if ch l then 1 else 0)).
+Proof. exact ceval_walk_sem. Qed.
+Print Assumptions C02_bcdd_eval_walk_sem.
+
+Theorem C02_bcdd_eval_edge_assignment : forall s e (a : asg) args, BcOK s -> ref_ok s (eref e) ->
+  (forall v b, In (v, b) args -> b = a v /\ v < nlevels s) ->
+  (forall v, v < nlevels s -> In v (map fst args)) ->
+  ceval_edge s e args = Some (cbfun_of s e a).
+Proof. exact ceval_edge_assignment. Qed.
+Print Assumptions C02_bcdd_eval_edge_assignment.
+
+(** cofactors = the two Shannon cofactors w.r.t. the top-most variable (the
+    incoming tag is pushed onto both children); [None] exactly for the two
+    constant edges *)
+Theorem C02_bcdd_cofactors_cof : forall s e t x, BcOK s -> ref_ok s (eref e) ->
+  ccofactors s e = Some (t, x) ->
+  exists v, nth_error (s_l2v s) (rlevel s (eref e)) = Some v /\
+    forall a, cbfun_of s t a = cof (cbfun_of s e) v true a /\
+              cbfun_of s x a = cof (cbfun_of s e) v false a.
+Proof. exact ccofactors_cof. Qed.
+Print Assumptions C02_bcdd_cofactors_cof.
+
+Theorem C02_bcdd_cofactors_none : forall s e, BcOK s -> ref_ok s (eref e) ->
+  (ccofactors s e = None <-> exists t, eref e = RT t).
+Proof. exact ccofactors_none. Qed.
+Print Assumptions C02_bcdd_cofactors_none.
+
+(** the operators in terms of Boolean functions of assignments (DD/Sem.v) *)
+Theorem C02_bcdd_not_bfun : forall C s (c : C) f, BcOK s -> ref_ok s (eref f) ->
+  exists r, capply_not C s c f = Some (s, c, r) /\ ref_ok s (eref r) /\
+    forall a, cbfun_of s r a = lift1 negb (cbfun_of s f) a.
+Proof. exact capply_not_bfun. Qed.
+Print Assumptions C02_bcdd_not_bfun.
+
+Theorem C02_bcdd_apply_op_bfun : forall lt C cget cadd, lossyC cget cadd ->
+  forall o s (c : C) f g,
+  BcOK s -> CacheOKC cget s c -> ref_ok s (eref f) -> ref_ok s (eref g) ->
+  exists s' c' r, capply_op lt C cget cadd (S (nlevels s)) s c o f g = Some (s', c', r) /\
+    BcOK s' /\ extends s s' /\
+    forall a, cbfun_of s' r a = lift2 o (cbfun_of s f) (cbfun_of s g) a.
+Proof. exact capply_op_bfun. Qed.
+Print Assumptions C02_bcdd_apply_op_bfun.
+
+Theorem C02_bcdd_apply_ite_bfun : forall lt C cget cadd, lossyC cget cadd ->
+  forall s (c : C) f g h,
+  BcOK s -> CacheOKC cget s c -> ref_ok s (eref f) -> ref_ok s (eref g) -> ref_ok s (eref h) ->
+  exists s' c' r, capply_ite lt C cget cadd (S (nlevels s)) s c f g h = Some (s', c', r) /\
+    BcOK s' /\ extends s s' /\
+    forall a, cbfun_of s' r a = ite_s (cbfun_of s f) (cbfun_of s g) (cbfun_of s h) a.
+Proof. exact capply_ite_bfun. Qed.
+Print Assumptions C02_bcdd_apply_ite_bfun.
+
+(** the returned edge is the unique edge of its function: repeating the
+    operation in any later state of the table, with any correct cache of any
+    lossy implementation and any operand order, returns the identical edge and
+    leaves the table unchanged (what the correspondence run relies on) *)
+Theorem C02_bcdd_apply_op_history_independent :
+  forall lt1 lt2 C1 C2 cget1 cadd1 cget2 cadd2, lossyC cget1 cadd1 -> lossyC cget2 cadd2 ->
+  forall o s (c1 : C1) f g fuel1 s1 c1' r1,
+  BcOK s -> CacheOKC cget1 s c1 -> ref_ok s (eref f) -> ref_ok s (eref g) -> S (nlevels s) <= fuel1 ->
+  capply_op lt1 C1 cget1 cadd1 fuel1 s c1 o f g = Some (s1, c1', r1) ->
+  forall s2 (c2 : C2) fuel2, BcOK s2 -> extends s1 s2 -> CacheOKC cget2 s2 c2 -> S (nlevels s2) <= fuel2 ->
+  exists c2', capply_op lt2 C2 cget2 cadd2 fuel2 s2 c2 o f g = Some (s2, c2', r1).
+Proof. exact capply_op_history_independent. Qed.
+Print Assumptions C02_bcdd_apply_op_history_independent.
+
+Theorem C02_bcdd_apply_ite_history_independent :
+  forall lt1 lt2 C1 C2 cget1 cadd1 cget2 cadd2, lossyC cget1 cadd1 -> lossyC cget2 cadd2 ->
+  forall s (c1 : C1) f g h fuel1 s1 c1' r1,
+  BcOK s -> CacheOKC cget1 s c1 -> ref_ok s (eref f) -> ref_ok s (eref g) -> ref_ok s (eref h) ->
+  S (nlevels s) <= fuel1 ->
+  capply_ite lt1 C1 cget1 cadd1 fuel1 s c1 f g h = Some (s1, c1', r1) ->
+  forall s2 (c2 : C2) fuel2, BcOK s2 -> extends s1 s2 -> CacheOKC cget2 s2 c2 -> S (nlevels s2) <= fuel2 ->
+  exists c2', capply_ite lt2 C2 cget2 cadd2 fuel2 s2 c2 f g h = Some (s2, c2', r1).
+Proof. exact capply_ite_history_independent. Qed.
+Print Assumptions C02_bcdd_apply_ite_history_independent.
+
+(** the hypotheses are satisfiable and the algorithms run; the two cache
+    instances used by the correspondence run are lossy *)
+Theorem C02_bcdd_example :
+  BcOK ex_bcdd /\ CacheOKC eac_get ex_bcdd [] /\ lossyC eac_get eac_add /\ lossyC enc_get enc_add /\
+  new_nodes (capply_op lt_id eacache eac_get eac_add 3 ex_bcdd [] OAnd n2 n1) =
+  Some ([(3%positive, mkNode 0 [n1; tF] 0 0)], mkEdge (RN 3) false).
+Proof. exact (conj ex_bcdd_bcok (conj ex_bcdd_cache_ok (conj eac_lossy (conj enc_lossy ex_c_and)))). Qed.
+Print Assumptions C02_bcdd_example.
